@@ -810,7 +810,6 @@ func isBoolType(t types.Type) bool {
 	return ok && b.Info()&types.IsBoolean != 0
 }
 
-
 // Owners: the reviewed functions on whose behalf code in fn runs - fn itself
 // when it existed at review time, otherwise (a helper extracted later, see
 // inline.go) the known functions that call it, transitively. Confinement
@@ -854,7 +853,6 @@ func (c *Ctx) Owners(fn *ssa.Function) []string {
 	sort.Strings(out)
 	return out
 }
-
 
 // ReviewedFuncs: the module functions whose own site lists are compared with
 // tables - all of them except helpers that did not exist at review time and
